@@ -206,7 +206,7 @@ func TestFindings(t *testing.T) {
 }
 
 func TestRandom(t *testing.T) {
-	chkEnc.Rapid(t, harness.Pick(20000, 100000))
+	chkEnc.Rapid(t, harness.Pick(20000, 1000000))
 }
 
 func TestQuantityAxis(t *testing.T) {
